@@ -55,6 +55,17 @@ type report struct {
 	Packages        []string `json:"packages"`
 }
 
+// curFnBodyDepth: is the node on top of the stack inside a function body?
+func curFnBodyDepth(stack []ast.Node) bool {
+	for _, n := range stack {
+		switch n.(type) {
+		case *ast.FuncDecl, *ast.FuncLit:
+			return true
+		}
+	}
+	return false
+}
+
 type splice struct {
 	off  int
 	text string
@@ -398,6 +409,65 @@ func main() {
 					loopLabel[info.outer] = name
 					info.outerName = name
 				}
+			}
+			// Calls into sync/atomic (and sync) that yield one value and sit INSIDE a
+			// larger expression - x.CompareAndSwap(k, k.next.Load()) - get a yield
+			// of their own right after they return (simrt.YA), so that a client can
+			// be preempted between two shared-memory operations of one statement.
+			// Statement-level yields alone cannot open the window between reading
+			// a node's successor and the compare-and-swap that installs it.
+			isSyncCall := func(c *ast.CallExpr) bool {
+				se, ok := c.Fun.(*ast.SelectorExpr)
+				if !ok {
+					return false
+				}
+				if sel, ok := info.Selections[se]; ok && sel.Obj() != nil && sel.Obj().Pkg() != nil {
+					switch sel.Obj().Pkg().Path() {
+					case "sync", "sync/atomic":
+						return true
+					}
+				}
+				if id, ok := se.X.(*ast.Ident); ok {
+					if pn, ok := info.Uses[id].(*types.PkgName); ok {
+						switch pn.Imported().Path() {
+						case "sync", "sync/atomic":
+							return true
+						}
+					}
+				}
+				return false
+			}
+			{
+				var stack []ast.Node
+				ast.Inspect(f, func(n ast.Node) bool {
+					if n == nil {
+						stack = stack[:len(stack)-1]
+						return true
+					}
+					if c, ok := n.(*ast.CallExpr); ok && isSyncCall(c) && len(stack) > 0 && curFnBodyDepth(stack) {
+						nested := false
+						switch par := stack[len(stack)-1].(type) {
+						case *ast.CallExpr:
+							nested = par.Fun != ast.Expr(c)
+						case *ast.BinaryExpr, *ast.UnaryExpr, *ast.IndexExpr, *ast.SelectorExpr, *ast.KeyValueExpr, *ast.CompositeLit, *ast.ParenExpr, *ast.StarExpr, *ast.TypeAssertExpr, *ast.SliceExpr:
+							nested = true
+						}
+						if tv, ok := info.Types[c]; ok && nested && tv.IsValue() && tv.Type != nil {
+							if _, isTuple := tv.Type.(*types.Tuple); !isTuple {
+								id := nextSite
+								nextSite++
+								rep.Sites = append(rep.Sites, site{ID: id, File: relFile, Line: line(c.Pos()), Kind: "after-sync-call", Fn: "", Hot: true})
+								rep.Yields++
+								rep.HotSites++
+								sp = append(sp, splice{off: off(c.Pos()), text: "simrt.YA(" + strconv.Itoa(id) + ", "})
+								sp = append(sp, splice{off: off(c.End()), text: ")"})
+								used = true
+							}
+						}
+					}
+					stack = append(stack, n)
+					return true
+				})
 			}
 			var visit func(n ast.Node) bool
 			visit = func(n ast.Node) bool {
